@@ -175,7 +175,10 @@ CHECKS = {
                   'tied to the code by differential correspondence of the column physics and of full explicit/implicit terms through a matrix-operator instance; the laws are validated on the real Grid on every run; two-profile differential on the real classes',
         text='Machine-checked proof for every level set, reference profile and kappa: the implicit temperature weights H applied to a divergence column equal the explicit adiabatic + vertical-advection formulas evaluated on the reference profile (the two halves of the split are the same discretisation), '
              'H is additive in the profile; for the dry and the time-carrying classes, for any two reference profiles and states with the same absolute temperature, explicit + implicit tendencies are identical, from linearity and the named discrete-calculus laws (round trip, div grad = laplacian, laplacian kills the mean, clip laws). '
-             'PARTIAL (named): the moist and cloud classes are decided by the two-profile differential on the real code and by model correspondence, not yet by a theorem; their T_ref dependence on linear grids and for the cloud class are recorded known findings (keyed by class / grid kind / component).',
+             'for the moist class the same holds given additionally the product-rule laws (div / curl of q*grad p through the nodal product) and invertibility of 1 + (cp_v/cp - 1) q (T4.3); '
+             'for the cloud class the difference of the two totals is proved to be exactly R (T1 - T2) clip((curl|div)_cos_lat((q_l+q_i) sec^2 cos_lat_grad ln ps)) in vorticity / divergence and zero elsewhere (T4.4), with invariance when q_l = q_i = 0 and a concrete witness that the dependence is non-zero: '
+             'this is the recorded known finding, and the check compares the measured difference of the real class with the closed form (1e-9) so that any other T_ref dependence is still a violation. '
+             'The product-rule laws are validated on quadratic and cubic grids on every run and are asserted to fail on linear grids (known finding: moist classes on linear grids, aliasing level). include_vertical_advection=False is not claimed.',
         note=TB + 'Horizontal operators are abstract in the theorems; their laws are hypotheses validated numerically (quadratic and cubic grids) on every run.',
         design='6/C04'),
     'C07': dict(
